@@ -35,12 +35,32 @@ def _on_alarm(signum, frame):
     raise Runaway("read handler still running after %d s" % WATCHDOG_S)
 
 
+class CodeUnderTestFailure(Exception):
+    """The driver cannot even be brought into the state the replay starts from (handshake over the read path)."""
+
+
+class watchdog:
+    """`with watchdog():` around a batch of reads: SIGALRM raises Runaway inside code that does not return."""
+
+    def __init__(self, seconds=None):
+        self.seconds = seconds or WATCHDOG_S
+
+    def __enter__(self):
+        import signal
+        self._old = signal.signal(signal.SIGALRM, _on_alarm)
+        signal.setitimer(signal.ITIMER_REAL, self.seconds)
+        return self
+
+    def __exit__(self, *a):
+        import signal
+        signal.setitimer(signal.ITIMER_REAL, 0)
+        signal.signal(signal.SIGALRM, self._old)
+        return False
+
+
 def guarded_feed(conn, chunk):
-    """conn._iobuf.write(chunk); conn.process_io_buffer() - what every reactor's read handler does - under a
-    watchdog. Returns None, or a description of how the code under test failed to return normally."""
-    import signal
-    old = signal.signal(signal.SIGALRM, _on_alarm)
-    signal.setitimer(signal.ITIMER_REAL, WATCHDOG_S)
+    """conn._iobuf.write(chunk); conn.process_io_buffer() - what every reactor's read handler does.
+    Returns None, or a description of how the code under test failed to return normally."""
     try:
         conn._iobuf.write(chunk)
         conn.process_io_buffer()
@@ -49,14 +69,12 @@ def guarded_feed(conn, chunk):
         err = "runaway: %s" % exc
     except Exception as exc:          # a reactor would defunct the connection here
         err = repr(exc)
-    finally:
-        signal.setitimer(signal.ITIMER_REAL, 0)
-        signal.signal(signal.SIGALRM, old)
     try:
         conn.defunct(ConnectionError(err))
     except BaseException:
         conn.is_defunct = True
     return err
+
 
 # ------------------------------------------------------------------ real bodies of an exact length
 ROWS_OVERHEAD = len(wire.body_rows([("b", wire.T_BLOB)], [[b""]], ks="ks", table="t"))
@@ -206,9 +224,16 @@ def open_connection(protocol_version=4, versions=(1, 2, 3, 4, 5), **kw):
     world = SimWorld()
     world.install(modules=("cassandra.connection",))
     node = world.add_node(FakeNode(ADDR, versions=versions))
-    conn = SimConnection(ADDR, 9042, protocol_version=protocol_version, **kw)
+    try:
+        with watchdog(5):
+            conn = SimConnection(ADDR, 9042, protocol_version=protocol_version, **kw)
+    except Runaway:
+        raise CodeUnderTestFailure("v%d handshake: the read handler does not return while the node's answer "
+                                   "(one whole frame per read) is processed" % protocol_version)
+    except Exception as exc:
+        raise CodeUnderTestFailure("v%d handshake raised %r" % (protocol_version, exc))
     if not conn.connected_event.is_set() or conn.is_defunct or conn.is_closed:
-        raise RuntimeError("handshake did not complete: %r" % (conn.last_error,))
+        raise CodeUnderTestFailure("v%d handshake did not complete: %r" % (protocol_version, conn.last_error))
     return world, node, conn
 
 
@@ -274,12 +299,13 @@ def replay_reads(h, frames, reads, expected=None):
     """Feed the real connection with the given read sizes. `expected`: list of spec projections after each
     read (or None). Returns None, or the first divergence {step, k, diff}."""
     h.start(frames)
-    for n, k in enumerate(reads):
-        h.read(k)
-        if expected is not None:
-            d = diff(expected[n], h.project())
-            if d:
-                return {"step": n, "k": k, "diff": d, "error": h.error}
+    with watchdog():
+        for n, k in enumerate(reads):
+            h.read(k)
+            if expected is not None:
+                d = diff(expected[n], h.project())
+                if d:
+                    return {"step": n, "k": k, "diff": d, "error": h.error}
     return None
 
 
@@ -322,9 +348,10 @@ def record(h, frames, reads):
     """Run the real connection and log one event per read with the projected post-state."""
     h.start(frames)
     trace = [{"e": "Init", "frames": frames}]
-    for k in reads:
-        h.read(k)
-        trace.append({"e": "Read", "k": k, "post": h.project()})
+    with watchdog():
+        for k in reads:
+            h.read(k)
+            trace.append({"e": "Read", "k": k, "post": h.project()})
     return trace
 
 
